@@ -27,15 +27,32 @@ def stencil(F, run, path):
     run.analysed(b)
     it = sym.Interp(F, b)
     x, h = sym.S("x"), sym.S("h")
+    f = None
     try:
         e = it.ev(b["body"])
-    except sym.Unsupported as u:
-        run.broken("R19.1", path, "body", F.loc(b, u.node if isinstance(u.node, dict) else None), "cannot put body in lin-form: %s" % u)
-        return None
-    if "f" not in it.fn_atoms:
+        f = it.fn_atoms.get("f")
+    except sym.Unsupported as u0:
+        # the lin-form reader does not cover this spelling (helpers, closures, Option combinators, arrays mapped over the function): the exact
+        # evaluator does, with the user function as an atom
+        from bsa import vecint
+        from rules import polyint as PI
+
+        class UserFn(vecint.VInterp):
+            def user_call(self, pl, args, n):
+                return sp.Function("f")(*[a for a in args if not isinstance(a, (sym.Opaque, sym.ClosureVal))])
+        try:
+            args = [sp.Symbol("userfn") if (prm.get("name") == "f") else sym.S(prm.get("name")) for prm in b["params"]]
+            e, it2 = PI.call(F, b, args, cls=UserFn, seconds=60)
+            f = sp.Function("f")
+        except vecint.IndexPanic as pz:
+            run.fail("R19.1", path, "panic", F.loc(b), "abstract execution panics: %s" % pz.why)
+            return None
+        except (sym.Unsupported, vecint.Budget) as u:
+            run.broken("R19.1", path, "body", F.loc(b, u.node if isinstance(getattr(u, "node", None), dict) else None), "cannot put body in lin-form: %s (exact evaluator: %s)" % (u0, u))
+            return None
+    if f is None or not sym.atoms_of(e, f):
         run.broken("R19.1", path, "no-call", F.loc(b), "the user function is never called")
         return None
-    f = it.fn_atoms["f"]
     atoms = sym.atoms_of(e, f)
     run.call_sites += len(atoms)
     try:
